@@ -48,7 +48,12 @@ pub fn run_generic<I: PrimInt + std::panic::RefUnwindSafe + std::panic::UnwindSa
                 "cur0" => cur = 0,
                 // an index that went through its own serde round trip, or a clone of it, is the same index
                 "reload" => l = bincode::deserialize(&bincode::serialize(&l).expect("glue: serialize")).expect("deserialize a serialized index"),
-                "clone" => l = l.clone(),
+                "clone" => {
+                    // alternately a plain clone and Clone::clone_from into an EMPTY and into a short-interval index
+                    if l.len() % 3 == 0 { l = l.clone(); }
+                    else if l.len() % 3 == 1 { let mut t: Lapper<I, u32> = Lapper::new(vec![]); t.clone_from(&l); l = t; }
+                    else { let mut t: Lapper<I, u32> = Lapper::new(vec![Interval { start: I::zero(), stop: I::one(), val: 0 }]); t.clone_from(&l); l = t; }
+                }
                 "find" => {
                     let (qs, qe): (I, I) = (c(&o[1]), c(&o[2]));
                     if let Some(w) = walk_check(&|| l.find(qs, qe)) { emit(a(format!("ORACLE-FAIL:find-walked-by-{}", w))); }
